@@ -90,6 +90,7 @@ func main() {
 	tss := timestamps()
 	extras := []snapshot.NameExtra{nil, {"X1"}, {"X1", "Y"}, {"Ya-b"}}
 	gens := []string{"GX", "G-0"}
+	zones := []*time.Location{time.UTC, time.FixedZone("+0545", 5*3600+45*60), time.FixedZone("-0930", -(9*3600 + 30*60)), time.FixedZone("+1400", 14*3600)}
 
 	// --- part 1: round trip + injectivity + chronological order ---
 	p1 := &ev.Part{Name: "roundtrip-order-injective", Engine: "E1", Exhaustive: true}
@@ -105,9 +106,16 @@ func main() {
 					var prevName string
 					var prevTS time.Time
 					for ti, ts := range tss {
+						// the same instant expressed in different time zones (the process's local zone is not always UTC)
+						zone := zones[ti%len(zones)]
 						ni := snapshot.NameInfo{Kind: snapshot.KindSnapshot, Extension: snapshot.DefaultExtension,
-							SyncerName: db, InstanceID: inst, GenerationID: gen, Timestamp: ts, Extra: extra}
+							SyncerName: db, InstanceID: inst, GenerationID: gen, Timestamp: ts.In(zone), Extra: extra}
 						name := ni.BuildName()
+						niu := ni
+						niu.Timestamp = ts.UTC()
+						if nu := niu.BuildName(); nu != name {
+							r.Violate(p1.Name, "name-depends-on-time-zone", fmt.Sprintf("instant %d ns: name %q when the time value is in zone %s, %q in UTC", ts.UnixNano(), name, zone, nu), map[string]any{"name": name, "zone": zone.String()})
+						}
 						p1.Executions++
 						p1.Transitions++
 						tuple := fmt.Sprintf("%q|%q|%d|%q|%q", db, inst, ts.UnixNano(), gen, extra.String())
@@ -193,7 +201,7 @@ func main() {
 		var muts []string
 		for i := 0; i <= len(name); i++ {
 			if i < len(name) {
-				muts = append(muts, name[:i]+name[i+1:])              // delete
+				muts = append(muts, name[:i]+name[i+1:])           // delete
 				muts = append(muts, name[:i]+name[i:i+1]+name[i:]) // duplicate
 				for _, c := range repl {
 					muts = append(muts, name[:i]+string(c)+name[i+1:]) // replace
